@@ -383,6 +383,8 @@ ENTRY = EntryModel()
 
 def index_from_repo(it, repo):
     rf = F(it, repo)
+    if not it.spec_mode:
+        it.path.effects.append(("ReadIndex", NONE))
     return new(it, INDEX, {"dom": rf["index_dom"], "sha": rf["index_sha"], "mode": rf["index_mode"], "repo": repo})
 
 
@@ -590,6 +592,76 @@ def index_entry_from_stat(it, a, k):
     return new(it, ENTRY, {"sha": a[1], "mode": VInt(0o100644)})
 
 
+# ---------------------------------------------------------------------------- abstract repository
+class AbstractObjStoreModel(Model):
+    """Object store as the GitStore-level contracts see it: membership and content are the
+    ghost functions in_store / blob_of over its opaque identity; adding a tree records the
+    member map it denotes in the repository's `trees` (= GitStore.ghost_trees)."""
+
+    cls_name = "dulwich.object_store.BaseObjectStore"
+
+    def as_opaque(self, it, ref):
+        return F(it, ref)["oid"]
+
+    def getitem(self, it, ref, idx):
+        c = it.registry.contracts["iface:ObjectStore.__getitem__"]
+        return it.registry.call_iface(it, c, [F(it, ref)["oid"], idx], {})
+
+    def getattr(self, it, ref, name):
+        if name == "add_object":
+            def add_object(it_, self_ref, a, k):
+                obj = a[0]
+                ocell = it_.heap()[obj.addr]
+                if ocell.native is TREE:
+                    repo = F(it_, self_ref)["repo"]
+                    rc = it_.path.heap[repo.addr]
+                    dom, sha, mode = TREE.entries(it_, obj)
+                    tag = uf("decode[ascii]", STR, STR)(th(it_, dom, sha, mode))
+                    trees = rc.fields["trees"]
+                    view = it_.registry.spec_natives["entries_view_raw"](it_, dom, sha)
+                    # a tag denotes one tree (TH injective): re-adding a known tree changes nothing
+                    known = trees.has(VStr(tag))
+                    it_.path.assume(z3.Implies(known, vals.eq(trees.get(VStr(tag)), view)))
+                    rc.fields["trees"] = vals.ite(known, trees, trees.put(VStr(tag), view))
+                return NONE
+            return self.method(ref, add_object, name)
+        raise Unsupported(f"abstract object_store.{name}")
+
+
+ABS_OBJSTORE = AbstractObjStoreModel()
+
+
+class AbstractRepoModel(Model):
+    cls_name = "dulwich.repo.BaseRepo"
+
+    @staticmethod
+    def fresh(it, name="repo"):
+        trees = vals.fresh("dict[str,dict[str,str]]", it.path.name(name + ".trees"))
+        oid = VOpaque(it.path.const(name + ".object_store", vals.usort("ObjectStore")), "ObjectStore")
+        ref = new(it, ABS_REPO, {"trees": trees, "path": VStr(it.path.const(name + ".path", STR))})
+        os_ref = new(it, ABS_OBJSTORE, {"repo": ref, "oid": oid})
+        it.path.heap[ref.addr].fields["object_store"] = os_ref
+        return ref
+
+    def getattr(self, it, ref, name):
+        f = F(it, ref)
+        if name in ("object_store", "path"):
+            return f[name]
+        raise Unsupported(f"abstract Repo.{name}")
+
+    def frame_eq(self, it, old, cur):
+        out = []
+        for k, ov in old.fields.items():
+            cv = cur.fields.get(k)
+            if cv is ov or isinstance(ov, VRef):
+                continue
+            out.append((f"repo.{k}", vals.eq(ov, cv)))
+        return out
+
+
+ABS_REPO = AbstractRepoModel()
+
+
 def install(reg):
     E = reg.externals
     E["dulwich.objects.Blob"] = VExtClass("dulwich.objects.Blob")
@@ -656,7 +728,47 @@ def install(reg):
         f = _repo(it, it.getattr(a[0], "repo"))
         return entries_view(it, f["index_dom"], f["index_sha"])
 
+    def abs_trees_view(it, a, k):
+        r = it.getattr(a[0], "repo")
+        return F(it, r)["trees"]
+
+    def abs_trees_set(it, obj, newval):
+        r = it.getattr(obj, "repo")
+        it.path.heap[r.addr].fields["trees"] = newval
+
+    reg.spec_natives["empty_tag"] = lambda it, a, k: VStr(uf("decode[ascii]", STR, STR)(th(it, EMPTY_DOM, EMPTY_SHA, EMPTY_MODE)))
+    reg.spec_natives["abs_trees_view"] = abs_trees_view
+    reg.view_setters["abs_trees_view"] = abs_trees_set
+    reg.spec_natives["entries_view_raw"] = entries_view
+
+    class AbsRepoFactory:
+        @staticmethod
+        def fresh(it, name):
+            return AbstractRepoModel.fresh(it, name)
+
+    reg.model_classes["abstract.Repo"] = AbsRepoFactory
+
+    def trees_view(it, a, k):
+        """ghost_trees for a git store: every tree object in the object store, as a member map."""
+        enc_axioms(it)
+        f = _repo(it, it.getattr(a[0], "repo"))
+        ea = uf("encode[ascii]", STR, STR)
+        e8 = uf("encode[utf-8]", STR, STR)
+        da = uf("decode[ascii]", STR, STR)
+        t = z3.FreshConst(STR, "t")
+        n = z3.FreshConst(STR, "n")
+        dom = z3.Lambda([t], z3.And(z3.Select(f["store_has"], ea(t)), KIND(ea(t)) == 2))
+        inner_dom = z3.Lambda([t], z3.Lambda([n], z3.And(z3.Select(TH_dom(ea(t)), e8(n)), n != S(".xandikos"))))
+        inner_val = z3.Lambda([t], z3.Lambda([n], da(z3.Select(TH_sha(ea(t)), e8(n)))))
+        x = z3.FreshConst(STR, "x")
+        if "canon_all" not in it.path.memo:
+            it.path.memo["canon_all"] = True
+        return VMap(VStr(S("")), dom, VMap(VStr(S("")), inner_dom, VStr(inner_val)))
+
     SN = reg.spec_natives
+    SN["trees_view"] = trees_view
+    SN["tree_locked_view"] = lambda it, a, k: _repo(it, it.getattr(a[0], "repo"))["locked"]
+    SN["false_view"] = lambda it, a, k: VBool(False)
     SN["bare_view"] = bare_view
     SN["tree_view"] = tree_view
     SN["repo_head"] = lambda it, a, k: _repo(it, a[0])["head"]
